@@ -20,6 +20,7 @@ type Clause struct {
 	Loop  int
 	File  string
 	Line  int
+	Ghost bool // ghost update performed by the contract itself: assumed at call sites, not an obligation of implementers
 }
 
 type Contract struct {
@@ -255,6 +256,9 @@ func (sp *Specs) parseContractFile(path string, pkgPath string) error {
 				body = strings.TrimSpace(body[:i])
 				if m := reNameTag.FindStringSubmatch(tag); m != nil {
 					cl.Name = m[1]
+				}
+				if strings.Contains(tag, "ghost-update") {
+					cl.Ghost = true
 				}
 				if m := rePropsTag.FindStringSubmatch(tag); m != nil {
 					for _, p := range strings.FieldsFunc(m[1], func(r rune) bool { return r == ',' || r == ' ' }) {
